@@ -86,6 +86,49 @@ pub const CANARIES: &[&str] = &[
     "zh-Hant-TW",
 ];
 
+/// Ill-formed inputs that fail *late* - after the parser has already consumed variants, attributes, keyword
+/// types, a tlang, tfields or private tags. A parser that keeps working state between calls (scratch buffer,
+/// partially built value) and tidies it only on the success path is left dirty by exactly such inputs.
+pub const POISON: &[&str] = &[
+    "ca-ES-valencia-u-ca-gregory",
+    "sl-rozaj-biske-!",
+    "en-fonipa-",
+    "en-u-attr1-attr2-ca-buddhist-h0",
+    "en-u-ca-buddhist-gregory-1$",
+    "en-t-de-latn-1996-k0-dvorak-!!",
+    "en-t-h0-hybrid-k0",
+    "en-x-abc-def-toolongsubtag",
+    "en-u-ca-buddhist-t-h0-hybrid-u-nu-thai",
+    "de-1996-valencia-posix-a-b",
+    "en-Latn-US-macos-x-",
+    "sr-Cyrl-RS-1996-valencia-abcd",
+];
+
+/// Hostile neighbour for value-level checks (C05, C12, C17, C19 and the histories of C10): for one judged
+/// re-parse in four, a late-failing ill-formed input is parsed (by one or both parsers) immediately before it.
+/// The choice is a pure function of `key` (the text about to be parsed), so a replay makes the same calls.
+pub fn hostile_neighbour(key: &[u8]) {
+    use unic_langid_impl::LanguageIdentifier;
+    use unic_locale_impl::Locale;
+    let h = crate::mon::SigH::new(0x905).b(key).fin();
+    if h % 4 != 0 {
+        return;
+    }
+    let p = POISON[((h >> 2) % POISON.len() as u64) as usize].as_bytes();
+    match (h >> 8) % 3 {
+        0 => {
+            let _ = crate::mon::guard(|| LanguageIdentifier::from_bytes(p).is_ok());
+        }
+        1 => {
+            let _ = crate::mon::guard(|| Locale::from_bytes(p).is_ok());
+        }
+        _ => {
+            let _ = crate::mon::guard(|| Locale::from_bytes(p).is_ok());
+            let _ = crate::mon::guard(|| LanguageIdentifier::from_bytes(p).is_ok());
+        }
+    }
+}
+
 /// Drive every input of this shard's share of the stream through `f`.
 pub fn byte_stream(ctx: &mut Ctx, cfg: &StreamCfg, f0: &mut dyn FnMut(&mut Ctx, &[u8], Src)) {
     let mut tick = 0usize;
@@ -93,6 +136,13 @@ pub fn byte_stream(ctx: &mut Ctx, cfg: &StreamCfg, f0: &mut dyn FnMut(&mut Ctx, 
         ctx.remember(b);
         f0(ctx, b, src);
         tick += 1;
+        if tick % 6 == 5 {
+            // a late-failing input directly in front of the canary
+            let p = POISON[(tick / 6) % POISON.len()].as_bytes();
+            mon::begin_case(p);
+            ctx.remember(p);
+            f0(ctx, p, Src::Canary);
+        }
         if tick % 3 == 0 {
             let c = CANARIES[(tick / 3) % CANARIES.len()].as_bytes();
             mon::begin_case(c);
